@@ -1,3 +1,273 @@
+/-
+  C07 — btcc assembles every token sequence into the exact minimal encoding.
+  Property theorems: what `Value::operator>>` (the only place the assembler emits bytes) produces for each
+  kind of value is the specification's minimal push; the minimal push decodes back to one instruction that
+  places exactly the given bytes on the stack and satisfies Bitcoin's minimal-push rule.
+  The lexical layer (classification of text into values) is tied by correspondence, see DESIGN.md.
+-/
 import Btcdeb
+import BtcdebProofs.Properties.C18
+import BtcdebProofs.Refine.Step
 namespace Btcdeb.Proofs.C07
+open Btcdeb Btcdeb.Model
+
+theorem pushData_eq_lengthPush (b : Bytes) : pushData b = Spec.lengthPush b := rfl
+
+/-- the encodings of the numbers that have a dedicated opcode -/
+theorem serialize_small (k : Nat) (hk : k ≤ 16) : serialize (k : Int) = if k = 0 then [] else [UInt8.ofNat k] := by
+  by_cases h0 : k = 0
+  · subst h0; simp [serialize]
+  · simp only [h0, if_false]
+    have hm : minimalOk [UInt8.ofNat k] = true := by
+      unfold minimalOk lo7
+      have : (UInt8.ofNat k).toNat = k := by rw [UInt8.toNat_ofNat']; omega
+      simp [this]; omega
+    have hv : setVch [UInt8.ofNat k] = (k : Int) := by
+      have := setVch_snoc [] (UInt8.ofNat k)
+      have hk' : (UInt8.ofNat k).toNat = k := by rw [UInt8.toNat_ofNat']; omega
+      have hhi : hi (UInt8.ofNat k) = false := by rw [hi_false_iff, hk']; omega
+      simpa [hhi, hk'] using this
+    rw [← hv]; exact Proofs.C18.encode_decode _ hm
+
+theorem serialize_neg_one : serialize (-1) = [0x81] := by
+  have hm : minimalOk [0x81] = true := by decide
+  have hv : setVch [0x81] = -1 := by decide
+  rw [← hv]; exact Proofs.C18.encode_decode _ hm
+
+/-- a decimal integer is emitted as the minimal push of its script-number encoding -/
+theorem int_emits_minimal (n : Int) : pushInt64 n = Spec.minimalPushOf (serialize n) := by
+  unfold pushInt64
+  by_cases h1 : n = -1
+  · subst h1; rw [serialize_neg_one]; rfl
+  · by_cases h2 : 1 ≤ n ∧ n ≤ 16
+    · obtain ⟨ha, hb⟩ := h2
+      obtain ⟨k, rfl⟩ : ∃ k : Nat, n = (k : Int) := ⟨n.toNat, by omega⟩
+      have hk : k ≤ 16 := by omega
+      have hk0 : k ≠ 0 := by omega
+      rw [serialize_small k hk]
+      have hc : (((k : Int) == -1) || (decide ((1 : Int) ≤ k) && decide ((k : Int) ≤ 16))) = true := by
+        simp; omega
+      simp only [hc, if_true, hk0, if_false]
+      have hb' : (UInt8.ofNat k).toNat = k := by rw [UInt8.toNat_ofNat']; omega
+      unfold Spec.minimalPushOf
+      have hr : 1 ≤ (UInt8.ofNat k).toNat ∧ (UInt8.ofNat k).toNat ≤ 16 := by rw [hb']; omega
+      have : ((k : Int) + 80).toNat = 0x50 + k := by omega
+      simp only [hb', this]
+      have hr' : 1 ≤ k ∧ k ≤ 16 := by omega
+      simp [hr']
+    · by_cases h0 : n = 0
+      · subst h0; simp [serialize, Spec.minimalPushOf]
+      · have hc : (n == -1 || (decide (1 ≤ n) && decide (n ≤ 16))) = false := by
+          simp [h1]; intro h; exact Classical.byContradiction (fun h' => h2 ⟨h, by omega⟩)
+        simp only [hc, Bool.false_eq_true, if_false, beq_iff_eq, h0]
+        rw [pushData_eq_lengthPush]
+        -- the encoding of n is neither empty nor one of the bytes that have a dedicated opcode
+        have hde := Proofs.C18.decode_encode n
+        unfold Spec.minimalPushOf
+        cases hs : serialize n with
+        | nil => rw [hs] at hde; simp [setVch] at hde; exact absurd hde.symm h0
+        | cons b rest =>
+          cases rest with
+          | cons c r => rfl
+          | nil =>
+            rw [hs] at hde
+            have hb : setVch [b] = if hi b then -((b.toNat - 128 : Nat) : Int) else (b.toNat : Int) := by
+              have := setVch_snoc [] b
+              simpa using this
+            rw [hb] at hde
+            by_cases hhi : hi b = true
+            · simp only [hhi, if_true] at hde
+              have h128 := (hi_iff b).mp hhi
+              have hlt := u8_lt b
+              have hne : ¬ (b.toNat = 0x81) := by intro h; apply h1; rw [← hde, h]; decide
+              have hr : ¬ (1 ≤ b.toNat ∧ b.toNat ≤ 16) := by omega
+              simp [hr, hne]
+            · have hhi' : hi b = false := by simpa using hhi
+              simp only [hhi', Bool.false_eq_true, if_false] at hde
+              have h128 := (hi_false_iff b).mp hhi'
+              have hr : ¬ (1 ≤ b.toNat ∧ b.toNat ≤ 16) := by intro h; apply h2; omega
+              have hne : ¬ (b.toNat = 0x81) := by omega
+              simp [hr, hne]
+
+/-- a data value (hex literal, compiled sub-script) is emitted as the minimal push of exactly its bytes -/
+theorem data_emits_minimal (v : Value) (hv : v.type = .T_DATA) (s : Bytes) :
+    v.appendTo s = .ok (s ++ Spec.minimalPushOf v.data) := by
+  unfold Value.appendTo
+  simp only [hv]
+  by_cases hlen : v.data.length < 5
+  · simp only [hlen, if_true]
+    have h4 : ¬ v.data.length > 4 := by omega
+    unfold dataIntValue scriptNum
+    simp only [h4, if_false, Bool.false_and, Bool.false_eq_true]
+    show (if serialize (setVch v.data) == v.data then Except.ok (s ++ pushInt64 (setVch v.data)) else Except.ok (s ++ pushData v.data)) = _
+    by_cases hcanon : serialize (setVch v.data) = v.data
+    · simp only [hcanon, beq_self_eq_true, if_true]
+      rw [int_emits_minimal, hcanon]
+    · have : (serialize (setVch v.data) == v.data) = false := by simpa using hcanon
+      simp only [this, Bool.false_eq_true, if_false]
+      -- not canonical: the data is not [], not a single byte 1..16 or 0x81 (those are canonical), so the length rule applies
+      rw [pushData_eq_lengthPush]
+      unfold Spec.minimalPushOf
+      cases hd : v.data with
+      | nil => rw [hd] at hcanon; exact absurd (by decide) hcanon
+      | cons b rest =>
+        cases rest with
+        | cons c r => rfl
+        | nil =>
+          rw [hd] at hcanon
+          by_cases hr : 1 ≤ b.toNat ∧ b.toNat ≤ 16
+          · exfalso; apply hcanon
+            have hm : minimalOk [b] = true := by
+              unfold minimalOk lo7; simp; omega
+            exact Proofs.C18.encode_decode [b] hm
+          · by_cases hne : b.toNat = 0x81
+            · exfalso; apply hcanon
+              have hm : minimalOk [b] = true := by
+                unfold minimalOk lo7; simp; omega
+              exact Proofs.C18.encode_decode [b] hm
+            · simp [hr, hne]
+  · simp only [hlen, if_false]
+    rw [pushData_eq_lengthPush]
+    unfold Spec.minimalPushOf
+    cases hd : v.data with
+    | nil => rw [hd] at hlen; simp at hlen
+    | cons b rest =>
+      cases rest with
+      | nil => rw [hd] at hlen; simp at hlen
+      | cons c r => rfl
+
+/-- an opcode token is emitted as its byte -/
+theorem opcode_emits_byte (v : Value) (hv : v.type = .T_OPCODE) (s : Bytes) :
+    v.appendTo s = .ok (s ++ [UInt8.ofNat v.opcode]) := by
+  unfold Value.appendTo; simp [hv]
+
+/-- the value an instruction places on the stack when executed -/
+def pushedBy (i : Spec.Instr) : Option Bytes :=
+  if i.opcode ≤ 0x4e then some i.data
+  else if i.opcode = 0x4f then some [0x81]
+  else if 0x51 ≤ i.opcode ∧ i.opcode ≤ 0x60 then some [UInt8.ofNat (i.opcode - 0x50)]
+  else none
+
+theorem leFixed_length (k n : Nat) : (leFixed k n).length = k := by
+  induction k generalizing n with
+  | zero => rfl
+  | succ k ih => simp [leFixed, ih]
+
+theorem leValue_leFixed (k n : Nat) (h : n < 256 ^ k) : leValue (leFixed k n) = n := by
+  induction k generalizing n with
+  | zero => simp at h; subst h; rfl
+  | succ k ih =>
+    simp only [leFixed, leValue_cons, u8_ofNat_mod]
+    rw [ih (n / 256) (by rw [Nat.pow_succ] at h; omega)]
+    omega
+
+/-- Decoding the minimal push yields exactly one instruction, which places exactly the given bytes on
+    the stack and satisfies Bitcoin's minimal-push rule (any data length below 2^32) -/
+theorem minimal_push_decodes (d rest : Bytes) (hd : d.length < 2 ^ 32) :
+    ∃ i, Spec.decodeOne (Spec.minimalPushOf d ++ rest) = some (i, rest) ∧ pushedBy i = some d ∧
+      (i.opcode ≤ 0x4e → Spec.minimalPush i.opcode i.data = true) := by
+  have lenPush : ∀ (d : Bytes), d.length < 2 ^ 32 → d ≠ [] →
+      (∀ b, d = [b] → ¬ (1 ≤ b.toNat ∧ b.toNat ≤ 16) ∧ b.toNat ≠ 0x81) →
+      ∃ i, Spec.decodeOne (Spec.lengthPush d ++ rest) = some (i, rest) ∧ pushedBy i = some d ∧
+        (i.opcode ≤ 0x4e → Spec.minimalPush i.opcode i.data = true) := by
+    intro d hd hne hsingle
+    have hpos : 0 < d.length := List.length_pos_iff.mpr hne
+    have hmin : ∀ opc, (d.length ≤ 75 → opc = d.length) → (75 < d.length → d.length ≤ 255 → opc = 0x4c) →
+        (255 < d.length → d.length ≤ 65535 → opc = 0x4d) → Spec.minimalPush opc d = true := by
+      intro opc h1 h2 h3
+      unfold Spec.minimalPush
+      have h0 : ¬ d.length = 0 := by omega
+      simp only [h0, if_false]
+      by_cases hl1 : d.length = 1
+      · obtain ⟨b, rfl⟩ : ∃ b, d = [b] := by
+          cases d with
+          | nil => simp at hpos
+          | cons b r => cases r with
+            | nil => exact ⟨b, rfl⟩
+            | cons c r' => simp at hl1
+        have := hsingle b rfl
+        simp [this.1, this.2]
+        have := h1 (by simp); simp at this; exact this
+      · simp only [hl1, false_and, if_false]
+        by_cases ha : d.length ≤ 75
+        · simp [ha, h1 ha]
+        · by_cases hb : d.length ≤ 255
+          · simp [ha, hb, h2 (by omega) hb]
+          · by_cases hc : d.length ≤ 65535
+            · simp [ha, hb, hc, h3 (by omega) hc]
+            · simp [ha, hb, hc]
+    unfold Spec.lengthPush
+    by_cases h1 : d.length < 0x4c
+    · simp only [h1, if_true, List.cons_append]
+      have hb : (UInt8.ofNat d.length).toNat = d.length := by rw [UInt8.toNat_ofNat']; omega
+      refine ⟨⟨d.length, d⟩, ?_, ?_, ?_⟩
+      · simp only [Spec.decodeOne, hb, Spec.pushLenBytes]
+        have : d.length ≤ 78 := by omega
+        simp [this, h1]
+      · simp [pushedBy]; omega
+      · intro _; exact hmin _ (fun _ => rfl) (by omega) (by omega)
+    · simp only [h1, if_false]
+      by_cases h2 : d.length ≤ 0xff
+      · simp only [h2, if_true, List.cons_append]
+        have hb : (UInt8.ofNat d.length).toNat = d.length := by rw [UInt8.toNat_ofNat']; omega
+        refine ⟨⟨0x4c, d⟩, ?_, ?_, ?_⟩
+        · simp [Spec.decodeOne, Spec.pushLenBytes, hb]
+        · simp [pushedBy]
+        · intro _; exact hmin _ (by omega) (fun _ _ => rfl) (by omega)
+      · simp only [h2, if_false]
+        by_cases h3 : d.length ≤ 0xffff
+        · simp only [h3, if_true, List.cons_append, List.append_assoc]
+          have hl := leFixed_length 2 d.length
+          have hv := leValue_leFixed 2 d.length (by simp; omega)
+          refine ⟨⟨0x4d, d⟩, ?_, ?_, ?_⟩
+          · simp only [Spec.decodeOne, Spec.pushLenBytes]
+            simp [List.take_append_of_le_length, List.drop_append_of_le_length, hl, hv]
+          · simp [pushedBy]
+          · intro _; exact hmin _ (by omega) (by omega) (fun _ _ => rfl)
+        · simp only [h3, if_false, List.cons_append, List.append_assoc]
+          have hl := leFixed_length 4 d.length
+          have hv := leValue_leFixed 4 d.length (by simp; omega)
+          refine ⟨⟨0x4e, d⟩, ?_, ?_, ?_⟩
+          · simp only [Spec.decodeOne, Spec.pushLenBytes]
+            simp [List.take_append_of_le_length, List.drop_append_of_le_length, hl, hv]
+          · simp [pushedBy]
+          · intro _; exact hmin _ (by omega) (by omega) (by omega)
+  unfold Spec.minimalPushOf
+  cases d with
+  | nil =>
+    refine ⟨⟨0, []⟩, ?_, ?_, ?_⟩
+    · simp [Spec.decodeOne, Spec.pushLenBytes]
+    · simp [pushedBy]
+    · intro _; simp [Spec.minimalPush]
+  | cons b r =>
+    cases r with
+    | cons c r' =>
+      exact lenPush (b :: c :: r') hd (by simp) (by intro x hx; simp at hx)
+    | nil =>
+      have hlt := u8_lt b
+      by_cases h1 : 1 ≤ b.toNat ∧ b.toNat ≤ 16
+      · simp only [h1, and_self, if_true]
+        have hb : (UInt8.ofNat (0x50 + b.toNat)).toNat = 0x50 + b.toNat := by rw [UInt8.toNat_ofNat']; omega
+        refine ⟨⟨0x50 + b.toNat, []⟩, ?_, ?_, ?_⟩
+        · simp only [List.cons_append, List.nil_append, Spec.decodeOne, hb]
+          have : ¬ (0x50 + b.toNat ≤ 0x4e) := by omega
+          simp [this]
+        · have h2 : ¬ (0x50 + b.toNat ≤ 0x4e) := by omega
+          have h3 : ¬ (0x50 + b.toNat = 0x4f) := by omega
+          have h4 : 0x51 ≤ 0x50 + b.toNat ∧ 0x50 + b.toNat ≤ 0x60 := by omega
+          simp only [pushedBy, h2, h3, h4, and_self, if_true, if_false]
+          have : 0x50 + b.toNat - 0x50 = b.toNat := by omega
+          rw [this, u8_ofNat_toNat]
+        · intro h; simp only at h; omega
+      · simp only [h1, if_false]
+        by_cases h2 : b.toNat = 0x81
+        · simp only [h2, if_true]
+          refine ⟨⟨0x4f, []⟩, ?_, ?_, ?_⟩
+          · simp [Spec.decodeOne]
+          · have : b = 0x81 := u8_ext (by rw [h2]; decide)
+            subst this; simp [pushedBy]
+          · intro h; simp only at h; omega
+        · simp only [h2, if_false]
+          exact lenPush [b] hd (by simp) (by intro x hx; simp at hx; subst hx; exact ⟨h1, h2⟩)
+
 end Btcdeb.Proofs.C07
